@@ -152,6 +152,18 @@ func c09Exec(x *engine.Ctx, cc any) {
 		}
 		content := config.CertificateContent{Subject: append(pkix.RDNSequence{}, rdn...)}
 		got := config.Validate(prof, content)
+		// the profile is shared by every certificate that names it: a verdict must not alter it
+		changed := len(prof.SubjectAttributes.Attributes) != len(c.Attrs) && c.HasList
+		for i := 0; !changed && c.HasList && i < len(c.Attrs); i++ {
+			a := prof.SubjectAttributes.Attributes[i]
+			changed = a.Attribute != c.Attrs[i] || a.Optional != c.Optional[i]
+		}
+		if changed {
+			x.ViolationCase("C09/validate/alters-the-profile-it-checks",
+				fmt.Sprintf("profile attrs=%v optional=%v allowOther=%v: after validating subject %q the profile's attribute list reads %v, so the next certificate of the same profile is judged against a different list", c.Attrs, c.Optional, c.AllowOther, c09SubjectString(s), prof.SubjectAttributes.Attributes),
+				&c09Case{Kind: "pure", HasList: c.HasList, Attrs: c.Attrs, Optional: c.Optional, AllowOther: c.AllowOther, Subject: s})
+			prof = c09Profile(c)
+		}
 		want, definite, reason := c09Model(c, s)
 		if !definite {
 			x.Outcome("open (repeated required attribute)")
@@ -246,7 +258,7 @@ func init() {
 	register(&engine.Check{
 		ID:          "C09",
 		Level:       "model_checking",
-		Rule:        "every profile = (attribute list of length 0..4 over {CN,O,C,1.2.3.4} x optional flag) x allowOther, plus the absent list (9363 profiles) x every subject of length 1..5 over {CN,O,C,1.2.3.4,L} (3905): config.Validate on the real parsed RDN sequence vs. the reference predicate transcribed from the statement; plus 7 profiles x 9 subjects x 3 positions of the constrained entity in a root->mid->leaf chain through the whole file pipeline (rejected => planning error, empty write log). Pairs are distinct by construction; states = profiles, transitions = Validate calls / runs",
+		Rule:        "every profile = (attribute list of length 0..4 over {CN,O,C,1.2.3.4} x optional flag) x allowOther, plus the absent list (9363 profiles) x every subject of length 1..5 over {CN,O,C,1.2.3.4,L} (3905): config.Validate on the real parsed RDN sequence vs. the reference predicate transcribed from the statement, one profile object shared by all its subjects as in a run and compared with its definition after every verdict; plus 7 profiles x 9 subjects x 3 positions of the constrained entity in a root->mid->leaf chain through the whole file pipeline (rejected => planning error, empty write log). Pairs are distinct by construction; states = profiles, transitions = Validate calls / runs",
 		Bound:       map[string]string{"profile length": "<=4", "subject length": "<=5", "alphabet": "3 short names + 1 custom OID + 1 foreign attribute"},
 		Assumptions: []string{"profile attributes that the schema allows but no table resolves (PC, DC, T, UID, MAIL) are outside the statement"},
 		Budget:      budgets(quickBudget, thoroughBudget),
